@@ -718,6 +718,29 @@ def run(check, an: Analysis):
             same = False
         check.instance('P', '%s.ok' % label, same, where_fn(okm),
                        'ok == triggered without an exception')
+    # a process that yielded a native awaitable: once the awaitable has completed (its
+    # outcome is stored) the wait reports completion -- whatever the interrupt flag says
+    # by then -- and reports an interruption only when nothing was stored
+    waiter = an.callee('usim.py._awaitable.AwaitableEvent', 'wait_interruptible')
+    ok, n_done, n_int, bad = True, 0, 0, None
+    for path in an.paths(waiter):
+        if path.kind != 'return':
+            continue
+        stored = any(e.kind == 'store' and e.get('path') == 'self._value'
+                     for e in path.events)
+        value = rules.value_expr(path, len(path.events), path.outcome[1]) \
+            if path.outcome[1] is not None else None
+        answer = value.value if isinstance(value, ast.Constant) else None
+        if stored:
+            n_done += 1
+        else:
+            n_int += 1
+        if answer is not stored:
+            ok, bad = False, bad or path
+    check.instance('P', 'AwaitableEvent.wait_interruptible', ok and n_done > 0 and n_int > 0,
+                   where_fn(waiter.fn), 'returns True exactly on the paths that stored the '
+                   'outcome of the awaitable (%d), False on the others (%d)' % (n_done, n_int),
+                   path=rules.path_lines(bad) if bad else None, analysed=n_done + n_int)
     for name, want in (('all_events', 'len({0}) == {1}'),
                        ('any_events', '{1} or not {0}')):
         method = an.method(CONDITION, name)
